@@ -46,6 +46,7 @@ Inductive pv :=
 | VSet (l : list str)
 | VDict (d : list (str * pv))
 | VArr (l : list Z) | VBArr (l : list bool)
+| VMat (c : nat) (rows : list (list Z))      (* 2-d integer ndarray of shape (length rows, c), by rows *)
 | VMatch
 | VUnbound.
 
@@ -128,6 +129,15 @@ Fixpoint set_nth {A} (l : list A) (i : nat) (v : A) : list A :=
   match l, i with [], _ => [] | _ :: t, O => v :: t | x :: t, S j => x :: set_nth t j v end.
 Fixpoint zip_add (a b : list Z) : list Z :=
   match a, b with x :: a', y :: b' => (x + y)%Z :: zip_add a' b' | _, _ => [] end.
+(* np.nonzero of a 1-d array: the positions of the non-zero entries, from position i on *)
+Fixpoint nz_from (i : Z) (l : list Z) : list Z :=
+  match l with [] => [] | x :: t => if Z.eqb x 0 then nz_from (i + 1)%Z t else i :: nz_from (i + 1)%Z t end.
+(* a[idx] = x for an index array: one store per index, in order; None = IndexError *)
+Fixpoint scatter (a : list Z) (idx : list Z) (x : Z) : option (list Z) :=
+  match idx with
+  | [] => Some a
+  | i :: t => match norm_idx i (List.length a) with Some n => scatter (set_nth a n x) t x | None => None end
+  end.
 Fixpoint enum_from (n : Z) (l : list pv) : list pv :=
   match l with [] => [] | v :: t => VTup [VInt n; v] :: enum_from (n + 1)%Z t end.
 
@@ -137,7 +147,7 @@ Inductive cmpop := Eq | Ne | Lt | Le | Gt | Ge.
 
 Definition is_none (v : pv) : bool := match v with VNone => true | _ => false end.
 Definition mutable (v : pv) : bool :=
-  match v with VList _ | VSet _ | VDict _ | VArr _ | VBArr _ => true | _ => false end.
+  match v with VList _ | VSet _ | VDict _ | VArr _ | VBArr _ | VMat _ _ => true | _ => false end.
 
 Definition truth (v : pv) : out bool :=
   match v with
@@ -151,7 +161,7 @@ Definition truth (v : pv) : out bool :=
   | VArr (_ :: _ :: _) | VBArr (_ :: _ :: _) => EXN ValueError      (* truth value of an array is ambiguous *)
   | VArr [] | VBArr [] => UNM                                        (* deprecated, version dependent *)
   | VMatch => OK true
-  | VUnbound => UNM
+  | VMat _ _ | VUnbound => UNM
   end.
 
 Definition arith (op : binop) (x y : Z) : out pv :=
@@ -167,6 +177,8 @@ Definition bin_op (op : binop) (a b : pv) : out pv :=
   | Add, VStr x, VStr y => OK (VStr (x ++ y))
   | Add, VList x, VList y => OK (VList (x ++ y))
   | Add, VArr x, VArr y => if Nat.eqb (List.length x) (List.length y) then OK (VArr (zip_add x y)) else UNM
+  | Add, VArr x, VInt z => OK (VArr (map (fun v => v + z)%Z x))           (* broadcasting a Python int *)
+  | Mod, VArr x, VInt z => if Z.eqb z 0 then UNM else OK (VArr (map (fun v => v mod z)%Z x))
   | Mul, VList x, VInt n => OK (VList (rep_list x n))
   | Mul, VInt n, VList x => OK (VList (rep_list x n))
   | _, _, _ =>
@@ -241,6 +253,16 @@ Definition set_item (a i v : pv) : out pv :=
       | Some x => match norm_idx z (List.length l) with Some n => OK (VArr (set_nth l n x)) | None => EXN IndexError end
       | None => UNM end
   | VDict d, VStr k => OK (VDict (sassoc_set k v d))
+  | VArr l, VTup [VArr idx] =>                      (* a[(index array,)] = scalar *)
+      match as_int v with
+      | Some x => match scatter l idx x with Some l' => OK (VArr l') | None => EXN IndexError end
+      | None => UNM end
+  | VMat c rows, VInt z =>                          (* row assignment, without broadcasting *)
+      match v with
+      | VArr l => if Nat.eqb (List.length l) c
+                  then match norm_idx z (List.length rows) with Some n => OK (VMat c (set_nth rows n l)) | None => EXN IndexError end
+                  else UNM
+      | _ => UNM end
   | _, _ => UNM
   end.
 (* the elements a for loop / an unpacking / a constructor sees *)
@@ -251,6 +273,7 @@ Definition iter_elems (sord : list str -> list str) (v : pv) : out (list pv) :=
   | VSet l => OK (map VStr (sord l))
   | VArr l => OK (map VInt l)
   | VBArr l => OK (map VBool l)
+  | VMat _ rows => OK (map VArr rows)               (* the rows (views of a base array that only they can reach) *)
   | VDict d => OK (map (fun kv => VStr (fst kv)) d)
   | _ => UNM
   end.
@@ -311,6 +334,18 @@ Definition builtin (sord : list str -> list str) (f : string) (args : list pv) :
     | [VList l] => match all_ints l with Some zs => OK (VArr zs) | None => UNM end
     | [VArr l] => OK (VArr l)
     | _ => UNM end
+  else if f =? "np.asarray" then match args with [VArr l] => OK (VArr l) | [VMat c m] => OK (VMat c m) | _ => UNM end
+  else if f =? "ndim" then match args with [VArr _] | [VBArr _] => OK (VInt 1) | [VMat _ _] => OK (VInt 2) | _ => UNM end
+  else if f =? "np.nonzero" then match args with [VArr l] => OK (VTup [VArr (nz_from 0 l)]) | _ => UNM end
+  else if f =? "np.zeros_like" then match args with [VArr l] => OK (VArr (repeat 0%Z (List.length l))) | _ => UNM end
+  else if f =? "list" then match args with [VTup l] | [VList l] => OK (VList l) | _ => UNM end
+  else if f =? "tuple" then match args with [VTup l] | [VList l] => OK (VTup l) | _ => UNM end
+  else if f =? "np.zeros_int64" then                (* np.zeros(shape, dtype=np.int64) *)
+    match args with
+    | [VInt n] | [VList [VInt n]] => if (0 <=? n)%Z then OK (VArr (repeat 0%Z (Z.to_nat n))) else EXN ValueError
+    | [VList [VInt r; VInt c]] =>
+        if ((0 <=? r) && (0 <=? c))%Z then OK (VMat (Z.to_nat c) (repeat (repeat 0%Z (Z.to_nat c)) (Z.to_nat r))) else EXN ValueError
+    | _ => UNM end
   else UNM.
 Local Close Scope string_scope.
 
@@ -336,7 +371,9 @@ Inductive stmt :=
 | SAug (fresh : bool) (x : string) (op : binop) (e : exp)     (* x op= e *)
 | SSetItem (x : string) (i e : exp)                 (* x[i] = e,   x a local that holds a fresh object *)
 | SUpdate (x : string) (e : exp)                    (* x.update(e), x a local that holds a fresh set *)
+| SUnpackItems (ts : list (string * exp)) (e : exp) (* x1[i1], ..., xk[ik] = e, every xj a local that holds a fresh object *)
 | SExpr (e : exp)
+| SAssert (e : exp)                                 (* assert e, <literal message> *)
 | SIf (c : exp) (a b : list stmt)
 | SFor (xs : list string) (it : exp) (body : list stmt)      (* for x in it / for x1, ..., xk in it *)
 | SReturn (e : exp)
@@ -504,7 +541,19 @@ Fixpoint exec (s : stmt) (en : env) {struct s} : sres :=
         lift_e (set_item a j v) (fun a' => set1 x a' en))))
   | SUpdate x e =>
       lift_e (eval en (ELoc x)) (fun a => lift_e (eval en e) (fun b => lift_e (set_update a b) (fun a' => set1 x a' en)))
+  | SUnpackItems ts e =>
+      lift_e (eval en e) (fun v => lift_e (iter_elems sord v) (fun els =>
+        if Nat.eqb (List.length els) (List.length ts) then
+          (fix go (ts : list (string * exp)) (els : list pv) (en : env) : sres :=
+             match ts, els with
+             | (x, i) :: ts', el :: els' =>
+                 lift_e (eval en (ELoc x)) (fun a => lift_e (eval en i) (fun j =>
+                   lift_e (set_item a j el) (fun a' => match update x a' en with Some en' => go ts' els' en' | None => SUnm end)))
+             | _, _ => SNorm en
+             end) ts els en
+        else SExn ValueError))
   | SExpr e => lift_e (eval en e) (fun _ => SNorm en)
+  | SAssert e => lift_e (eval en e) (fun v => lift_e (truth v) (fun t => if t then SNorm en else SExn OtherExn))   (* AssertionError *)
   | SIf c a b =>
       lift_e (eval en c) (fun v => lift_e (truth v) (fun t => run_block exec (if t then a else b) en))
   | SFor xs it body =>
